@@ -253,6 +253,7 @@ type LoopContract struct {
 	Invariants []Clause
 	Decreases  []Clause
 	Assigns    []Clause // loop frame: everything else that existed before the loop is unchanged
+	Latch      []Clause // must hold at every back edge (a fact about one iteration); never assumed
 }
 
 type Contract struct {
@@ -338,7 +339,7 @@ func readContracts(path string) (map[string]*Contract, error) {
 			}
 			curLoop = nil
 			lastClause = nil
-		case "requires", "ensures", "assigns", "invariant", "decreases":
+		case "requires", "ensures", "assigns", "invariant", "decreases", "latch":
 			if cur == nil {
 				return nil, fmt.Errorf("%s:%d: clause outside func", path, ln+1)
 			}
@@ -387,6 +388,11 @@ func readContracts(path string) (map[string]*Contract, error) {
 					return nil, fmt.Errorf("%s:%d: decreases outside loop", path, ln+1)
 				}
 				curLoop.Decreases = append(curLoop.Decreases, cls...)
+			case "latch":
+				if curLoop == nil {
+					return nil, fmt.Errorf("%s:%d: latch outside loop", path, ln+1)
+				}
+				curLoop.Latch = append(curLoop.Latch, cls...)
 			}
 		case "loop":
 			if cur == nil {
